@@ -288,10 +288,10 @@ Qed.
 
 (* ---------- [Editor] ---------- *)
 
-Lemma filter_map_raw_ok l : forallb raw_i32_ok (KeyValue.filter_map parse_i32_raw l) = true.
+Lemma filter_map_raw_ok l : forallb i32_ok (KeyValue.filter_map pn_i32 l) = true.
 Proof.
   induction l as [|x r IH]; [reflexivity|]. cbn [KeyValue.filter_map].
-  destruct (parse_i32_raw x) as [n|] eqn:E; [|exact IH]. cbn [forallb]. rewrite (raw_i32_range _ _ E), IH. reflexivity.
+  destruct (pn_i32 x) as [n|] eqn:E; [|exact IH]. cbn [forallb]. rewrite (pn_i32_ok _ _ E), IH. reflexivity.
 Qed.
 
 Lemma parse_editor_ok st l : editor_ok st = true -> editor_ok (fst (parse_editor st l)) = true.
